@@ -136,7 +136,11 @@ Line ==
                     /\ UNCHANGED <<vars, got, digest>>
                ELSE UNCHANGED vars /\ UNCH_T
      [] e.k = "padd" ->
-          /\ AtNow /\ AddPipe(e.p, e.r = "ok") /\ UNCH_T
+          \* the protocol is being told of the pipe; its verdict is a function of its state
+          AtNow /\ (\E ok \in BOOLEAN : AddPipe(e.p, ok)) /\ UNCH_T
+     [] e.k = "paddres" ->
+          \* ... and must be the one observed
+          (e.r = "ok") = (e.p \in pipes) /\ UNCHANGED vars /\ UNCH_T
      [] e.k = "prem" ->
           /\ AtNow /\ RemovePipe(e.p) /\ UNCH_T
      [] e.k = "xs" ->
